@@ -136,7 +136,9 @@ class Buffer:
     def project_buffer_capacity(self, obs, b):
         numerator = self.hot[b].total_capacity - (self.hot[b].current_capacity)
         numerator += obs.total_data_size
-        return numerator / self.hot[b].total_capacity < self.threshold
+        # "not over the threshold" after the move, consistently with
+        # check_buffer_over_data_threshold (which is a strict '>')
+        return numerator / self.hot[b].total_capacity <= self.threshold
 
     def check_buffer_capacity(self, observation, incoming=()):
         """
